@@ -73,6 +73,10 @@ class Bank:
         key = (id(self.fns), name, self.mode)
         if key not in _KERNELS:
             _KERNELS[key] = kern.Kernel(self.fns, name, self.mode)
+        namer = getattr(self, "namer", None)
+        if namer is not None:
+            # kernels mention their arguments several times: name long argument terms first (keeps scripts linear)
+            args = [namer(a, t) for a, t in zip(args, _KERNELS[key].arg_tys)]
         i = _KERNELS[key].inst(args)
         for d in i["decls"]:
             if d not in self.uf_decl:
@@ -228,6 +232,8 @@ class Evaluator:
                 cs = [b.promote(c, ty) for c in cells]
             if cs[0].ty == "f64" and self.mode == "bv":
                 eq = "(fp.eq %s %s)" % (cs[0].t, cs[1].t)
+            elif self.mode == "math" and cs[0].ty in ("i64", "str") and re.fullmatch(r"-?\d+|\(- \d+\)", cs[0].t) and re.fullmatch(r"-?\d+|\(- \d+\)", cs[1].t):
+                eq = "true" if cs[0].t == cs[1].t else "false"   # literal keys (concrete layouts)
             else:
                 eq = "(= %s %s)" % (cs[0].t, cs[1].t)
             return Cell(self.nulls(cells), "bool", eq if f == "Eq" else lnot(eq))
@@ -326,6 +332,8 @@ class Evaluator:
         raise Unsupported("function " + f)
 
     def declarations(self):
+        if self.b.decls is self.extra_decls:
+            return self.b.decls
         return self.b.decls + self.extra_decls
 
     def side_constraints(self):
